@@ -286,3 +286,26 @@ def bombs(valid, size=BUF - 100):
             r2.headers = r.headers[:i] + [(k, v)] * max(2, room_h // line) + r.headers[i + 1:]
             out.append(("bomb-header-line:%s" % ks.lower(), "dup", r2.bytes()))
     return out
+
+
+def header_value_truncations(req, cap=80):
+    """every prefix of every header value (deterministic; at most `cap` per header, spread over the value), also with
+    the parameter value quoted as RFC 2045 / 7231 allow; yields (kind, element, raw)"""
+    out = []
+    for i, (k, v) in enumerate(req.headers):
+        vs = v if isinstance(v, str) else v.decode("latin-1")
+        forms = [vs]
+        if "=" in vs and '"' not in vs:
+            a, b = vs.rsplit("=", 1)
+            forms.append(a + '="' + b + '"')
+        for f in forms:
+            cuts = list(range(len(f))) if len(f) <= cap else sorted(set(list(range(0, len(f), max(1, len(f) // cap))) + list(range(max(0, len(f) - 12), len(f)))))
+            for n in cuts:
+                r = req.copy()
+                r.headers[i] = (k, f[:n])
+                out.append(("hvalue-truncated", "hvalue", r.bytes()))
+            if f is not vs:
+                r = req.copy()
+                r.headers[i] = (k, f)
+                out.append(("hvalue-quoted-parameter", "hvalue", r.bytes()))
+    return out
